@@ -25,3 +25,8 @@ func C06_Values() {
 func C06_ValuesShaped() {
 	checkValues(shapedInput())
 }
+
+// C06_ValuesStruct: the same on the element-structured inputs (SHAPE).
+func C06_ValuesStruct() {
+	checkValues(structInput())
+}
